@@ -10,7 +10,7 @@ src = sys.argv[1] if len(sys.argv) > 1 else os.path.join(HERE, "tools", "regress
 rows = [r for r in json.load(open(src)) if r.get("kind") == "silent" and r["name"].startswith("benign/")]
 rows.sort(key=lambda r: r["name"])
 out = ["# Behaviour-preserving refactors: status with the current rules (tools/regress.py)", "",
-       "Rounds: A-C (round 1), D-F (round 2), G-H (round 3), I-J (round 4), K-L (round 5), M-N (round 6). Each directory holds the patch, the sub-agent's "
+       "Rounds: A-C (round 1), D-F (round 2), G-H (round 3), I-J (round 4), K-L (round 5), M-N (round 6), O-P (round 7). Each directory holds the patch, the sub-agent's "
        "equivalence demonstration and meta.json.", "",
        f"{sum(1 for r in rows if r['ok'])} of {len(rows)} leave all 20 checks silent.", "", "| id | result | alarms |", "|---|---|---|"]
 for r in rows:
